@@ -119,12 +119,20 @@ fn main() {
             for line in list.lines() {
                 let Some((dbg, path)) = line.split_once('\t') else { continue };
                 let text = std::fs::read_to_string(path).unwrap_or_default();
+                // arguments of a template: sidecar file <path>.args.json (same format as the `args` of a prog case)
+                let args_json: Option<serde_json::Value> = std::fs::read_to_string(format!("{path}.args.json"))
+                    .ok()
+                    .and_then(|t| serde_json::from_str(&t).ok());
                 let mut encs: Vec<String> = vec![];
                 let mut cmrs: Vec<String> = vec![];
                 let mut errs: Vec<String> = vec![];
                 for _ in 0..repeat {
                     let r = catch_unwind(AssertUnwindSafe(|| {
-                        simfony::CompiledProgram::new(text.as_str(), simfony::Arguments::default(), dbg == "1").map(|c| {
+                        let arguments = match &args_json {
+                            Some(j) => prog::args_from_json(j).unwrap_or_default(),
+                            None => simfony::Arguments::default(),
+                        };
+                        simfony::CompiledProgram::new(text.as_str(), arguments, dbg == "1").map(|c| {
                             let commit = c.commit();
                             let bytes = commit.encode_to_vec();
                             (bytes.iter().map(|b| format!("{b:02x}")).collect::<String>(), commit.cmr().to_string())
